@@ -129,13 +129,13 @@ Definition ex_D2 : tcase :=
      t_options := [(lit "blksize", lit "1400")];
      t_limits := {| max_bs := 1024; max_tmo := 30; default_tmo := 2 |}; t_retries := 1; t_wrap := Some 0;
      t_kind := KNoFileno; t_events := [Recv 1 0 [0; 4; 0; 0]; Recv 2 0 [0; 4; 0; 1]];
-     t_v := current; t_nv := nv_D2; t_na_always_skip := false |}.
+     t_proc := 0; t_v := current; t_nv := nv_D2; t_na_always_skip := false |}.
 Definition ex_D3 : tcase :=
   {| t_content := [5; 6; 7; 8; 9; 10]; t_chunks := []; t_netascii := false;
      t_options := [(lit "TSIZE", lit "0")];
      t_limits := {| max_bs := 1024; max_tmo := 30; default_tmo := 2 |}; t_retries := 1; t_wrap := Some 0;
      t_kind := KRealFile 10 4 true; t_events := [Recv 1 0 [0; 4; 0; 0]; Recv 2 0 [0; 4; 0; 1]];
-     t_v := current; t_nv := nv_D3; t_na_always_skip := false |}.
+     t_proc := 0; t_v := current; t_nv := nv_D3; t_na_always_skip := false |}.
 Theorem C07_refuted_D2 : holds ex_D2 (run_model ex_D2) <> [].
 Proof. vm_compute. discriminate. Qed.
 Print Assumptions C07_refuted_D2.
@@ -153,7 +153,7 @@ Definition ex_case : tcase :=
      t_limits := {| max_bs := 9; max_tmo := 5; default_tmo := 2 |}; t_retries := 1; t_wrap := Some 0;
      t_kind := KBytesIO 23 3;
      t_events := [Recv 1 0 [0; 4; 0; 0]; Recv 2 0 [0; 4; 0; 1]; Recv 3 0 [0; 4; 0; 2]; Recv 4 0 [0; 4; 0; 3]];
-     t_v := current; t_nv := ncurrent; t_na_always_skip := false |}.
+     t_proc := 0; t_v := current; t_nv := ncurrent; t_na_always_skip := false |}.
 Example C07_nonvacuous :
   (MonitorProofs.valid ex_case /\ valid ex_case) /\
   n_oack (t_neg ex_case) = [(lit "blksize", lit "9"); (lit "timeout", lit "3"); (lit "tsize", lit "20")] /\
